@@ -695,7 +695,8 @@ def run(ctx):
         'reserved path and invalid names; bodies written as lists, tuples '
         'and subclasses of the built-in types, the empty body as every '
         'combination of signature None / \'\' and body None / [] / (); 66000 (thorough 140000) messages '
-        'built in a row, every serial fresh and non-zero. state = message description; '
+        'built in a row (with refused constructions of seven kinds in '
+        'between), every serial fresh and non-zero. state = message description; '
         'transition = one construct/parse call'
         % (len(BODIES), 3 if ctx.quick else 4))
     ctx.bounds = {'bodies': len(BODIES), 'member_lengths': '1..8'}
@@ -725,10 +726,32 @@ def _task_serials(task):
             lambda: M.MethodCallMessage('/a', 'M'),
             lambda: M.MethodReturnMessage(5),
             lambda: M.ErrorMessage('a.b.E', 5)]
+    # constructions that are refused, at every stage of the encoding (body
+    # not fitting its signature, value out of range, NUL in a string,
+    # invalid names, invalid path): they must not disturb the numbering of
+    # the messages that are built
+    refused = [lambda: M.MethodCallMessage('/a', 'M', signature='i',
+                                           body=['x']),
+               lambda: M.SignalMessage('/a', 'S', 'a.b', signature='y',
+                                       body=[256]),
+               lambda: M.MethodReturnMessage(5, signature='s',
+                                             body=['a\0b']),
+               lambda: M.MethodCallMessage('/a', 'M', interface='nodots'),
+               lambda: M.MethodCallMessage('no/slash', 'M'),
+               lambda: M.ErrorMessage('a.b.E', 5, signature='as',
+                                      body=[[1]]),
+               lambda: M.SignalMessage('/a', 'S', 'a.b', signature='(ii)',
+                                       body=[7])]
     res.count('states')
     res.count('nontrivial')
     for i in range(n):
         res.count('transitions')
+        if i < 2000 or i % 97 == 0:
+            for k in range(1 + i % 3):
+                try:
+                    seen.add(refused[(i + k) % len(refused)]().serial)
+                except Exception:
+                    pass
         m = ctor[i % 4]()
         ser = m.serial
         if i in marks or i - 1 in marks or i + 1 in marks:
